@@ -136,20 +136,23 @@ def run(ctx):
                 cases.append({"s": MON[m - 1], "langs": ["en"], "settings": {"RELATIVE_BASE": b, "PREFER_DATES_FROM": pref, "TIMEZONE": "UTC"},
                               "expect": side_pred(b, m, None, pref, "month"), "expect_show": "%s on the %s side of %s, period month" % (MON[m - 1], pref, b),
                               "stratum": "month-alone/" + pref})
-    # two-digit years, reference years 1970..2067
-    for by in (range(1970, 2068) if tier != "quick" else [1970, 1999, 2000, 2024, 2067]):
+    # two-digit years, reference years 1970..2067: dates earlier and later in the year than the reference, the reference's own
+    # two-digit year included (the century must still be chosen by comparing full datetimes)
+    for by in (range(1970, 2068) if tier != "quick" else [1970, 1999, 2000, 2015, 2024, 2067]):
         b = D(by, 7, 1, 12)
-        for yy in ([0, 24, 68, 69, 99, by % 100] if tier == "quick" else range(0, 100, 7)):
+        yys = sorted(set(([0, 24, 68, 69, 99] if tier == "quick" else list(range(0, 100, 7))) + [by % 100, (by + 1) % 100, (by - 1) % 100]))
+        for yy in yys:
             piv = 2000 + yy if yy <= 68 else 1900 + yy
-            for pref in PREFS:
-                c = D(piv, 3, 15)
-                y2 = piv
-                if pref == "past" and c > b:
-                    y2 -= 100
-                if pref == "future" and c < b:
-                    y2 += 100
-                cases.append({"s": "15-03-%02d" % yy, "langs": ["en"], "settings": {"RELATIVE_BASE": b, "PREFER_DATES_FROM": pref, "DATE_ORDER": "DMY", "TIMEZONE": "UTC"},
-                              "expect": expect_str(D(y2, 3, 15)), "stratum": "two-digit-year/" + pref})
+            for (mm, dd) in ((3, 15), (11, 20), (7, 1), (7, 2)):
+                for pref in PREFS:
+                    c = D(piv, mm, dd)
+                    y2 = piv
+                    if pref == "past" and c > b:
+                        y2 -= 100
+                    if pref == "future" and c < b:
+                        y2 += 100
+                    cases.append({"s": "%02d-%02d-%02d" % (dd, mm, yy), "langs": ["en"], "settings": {"RELATIVE_BASE": b, "PREFER_DATES_FROM": pref, "DATE_ORDER": "DMY", "TIMEZONE": "UTC"},
+                                  "expect": expect_str(D(y2, mm, dd)), "stratum": "two-digit-year/" + pref})
 
     def parse_got(got):
         try:
